@@ -207,6 +207,386 @@ def flag_stmts(body):
         out.append(line)
     return out
 
+# ---------------------------------------------------------------- the payment life cycle (variant tables + decisions)
+
+VARIANTS = ['Legacy', 'AwaitingOffer', 'AwaitingInvoice', 'InvoiceReceived', 'StaticInvoiceReceived', 'Retryable', 'Fulfilled', 'Abandoned']
+def lv(v): return v[0].lower() + v[1:]
+REASONS = {'RecipientRejected': 'recipientRejected', 'UserAbandoned': 'userAbandoned', 'RetriesExhausted': 'retriesExhausted',
+           'PaymentExpired': 'paymentExpired', 'RouteNotFound': 'routeNotFound', 'UnexpectedError': 'unexpectedError',
+           'InvoiceRequestExpired': 'invoiceRequestExpired'}
+def reason_of(name, where):
+    if name not in REASONS: fail("%s: PaymentFailureReason::%s is not a reason the model knows" % (where, name))
+    return '.' + REASONS[name]
+
+def T(tmpl):
+    """template -> regex: literal text (white space flexible), `<<name:regex>>` = named group, `<<:regex>>` = plain regex"""
+    out = ''
+    for i, part in enumerate(re.split(r'<<(.*?)>>', tmpl)):
+        if i % 2 == 0:
+            out += re.sub(r'(\\ )+', r'\\s*', re.escape(part))
+        else:
+            name, rx = part.split(':', 1)
+            out += ('(?P<%s>%s)' % (name, rx)) if name else ('(?:%s)' % rx)
+    return out
+
+def variant_arms(arms, where):
+    """[(pat, expr)] of a `match` over a PendingOutboundPayment -> {Variant: (alternative text, expr text)};
+    `_` stands for the variants not named before it; every variant must be covered exactly once"""
+    out = {}
+    for pat, ex in arms:
+        for alt in split_top(one(pat), '|'):
+            alt = alt.strip()
+            if alt == '_':
+                for v in VARIANTS:
+                    if v not in out: out[v] = ('_', one(ex))
+                continue
+            m = re.fullmatch(r'(?:PendingOutboundPayment|Self)::(\w+)(?: (\{.*\}))?', alt)
+            if not m or m.group(1) not in VARIANTS: fail("%s: pattern %r is not a PendingOutboundPayment variant" % (where, alt))
+            if m.group(1) in out: fail("%s: variant %s matched twice" % (where, m.group(1)))
+            out[m.group(1)] = (alt, one(ex))
+    missing = [v for v in VARIANTS if v not in out]
+    if missing: fail("%s: variants %s not covered" % (where, missing))
+    return out
+
+def table(L, doc, name, typ, tab, val):
+    """emit `def name : Variant → typ` with one line per variant (val: (alt, expr) -> Lean term)"""
+    L.append('/-- %s -/' % doc)
+    L.append('def %s : Variant → %s' % (name, typ))
+    for v in VARIANTS:
+        L.append('  | .%s => %s' % (lv(v), val(v, *tab[v])))
+    L.append('')
+
+def self_match(b, where, nth=0, head=r'match self\s*(\{)'):
+    ms = list(re.finditer(head, b))
+    if len(ms) <= nth: fail("%s: `match` number %d not found" % (where, nth + 1))
+    m = ms[nth]
+    return match_arms(b[m.start(1):match_brace(b, m.start(1))]), m.start(), match_brace(b, m.start(1))
+
+def binds_privs(alt): return re.search(r'\bsession_privs\b', alt) is not None
+
+def bool_fn(L, doc, sig, cond, env=None, methods=None):
+    em = Emitter(env=env or {}, methods=methods or {})
+    out = em.e(parse_expr(cond))
+    L.append('/-- %s -/' % doc)
+    L.append('def %s : Bool :=' % sig)
+    L.append('  ' + out)
+    L.append('')
+    return out
+
+def lifecycle(src, L):
+    POP = 'impl PendingOutboundPayment'
+    # ---- the variants --------------------------------------------------------------------------
+    m = re.search(r'pub\(crate\) enum PendingOutboundPayment\s*(\{)', src)
+    if not m: fail("enum PendingOutboundPayment not found")
+    eb = strip_comments(src[m.start(1):match_brace(src, m.start(1))])
+    names, d, i = [], 0, 0
+    for mm in re.finditer(r'[{}]|(?<![\w:])([A-Z]\w*)\s*(?=\{)', eb):
+        if mm.group(0) == '{': d += 1
+        elif mm.group(0) == '}': d -= 1
+        elif d == 1: names.append(mm.group(1))
+    if names != VARIANTS: fail("PendingOutboundPayment variants changed: %r" % names)
+    L += ['/-! ### the life cycle of one payment: `PendingOutboundPayment::{remaining_parts, is_fulfilled, abandoned, is_pre_htlc_lock_in,',
+          '    mark_fulfilled, mark_abandoned, remove, insert, is_retryable_now, is_auto_retryable_now}`, `Retry::is_retryable_now`,',
+          '    `OutboundPayments::{claim_htlc, finalize_claims, fail_htlc, abandon_payment, remove_stale_payments, check_retry_payments',
+          '    (final retain), insert_from_monitor_on_startup}` — every table / test below is read from the Rust text -/', '',
+          '/-- the variants of `PendingOutboundPayment`, in declaration order -/',
+          'inductive Variant', '  | ' + ' | '.join(lv(v) for v in VARIANTS), '  deriving DecidableEq, Repr, Inhabited', '',
+          '/-- the `events::PaymentFailureReason`s this module hands out -/',
+          'inductive FailReason', '  | ' + ' | '.join(REASONS.values()), '  deriving DecidableEq, Repr, Inhabited', '']
+
+    # ---- remaining_parts -------------------------------------------------------------------------
+    _, _, body = find_fn(src, 'remaining_parts', after=POP)
+    b = strip_comments(body)
+    arms, s0, s1 = self_match(b, 'remaining_parts')
+    if one(b[:s0]).strip('{ ') or one(b[s1:]).strip('} '): fail("remaining_parts is no longer a single `match self`")
+    tab = variant_arms(arms, 'remaining_parts')
+    def v_rp(v, alt, ex):
+        if ex == '{ session_privs.len() }' and binds_privs(alt): return 'true'
+        if ex == '0': return 'false'
+        fail("remaining_parts/%s yields %r" % (v, ex))
+    table(L, 'remaining_parts: `session_privs.len()` (true) or `0` (false)', 'holdsParts', 'Bool', tab, v_rp)
+
+    # ---- is_fulfilled / abandoned / is_pre_htlc_lock_in ------------------------------------------
+    for fn, name in (('is_fulfilled', 'isFulfilledV'), ('abandoned', 'isAbandonedV'), ('is_pre_htlc_lock_in', 'isPreHtlcLockIn')):
+        _, _, body = find_fn(src, fn, after=POP)
+        b = strip_comments(body)
+        arms, s0, s1 = self_match(b, fn)
+        if one(b[:s0]).strip('{ ') or one(b[s1:]).strip('} '): fail("%s is no longer a single `match self`" % fn)
+        tab = variant_arms(arms, fn)
+        def v_b(v, alt, ex):
+            if ex in ('true', 'false'): return ex
+            fail("%s/%s yields %r" % (fn, v, ex))
+        table(L, 'PendingOutboundPayment::%s' % fn, name, 'Bool', tab, v_b)
+
+    # ---- mark_fulfilled ------------------------------------------------------------------------------
+    _, _, body = find_fn(src, 'mark_fulfilled', after=POP)
+    b = strip_comments(body)
+    arms, s0, s1 = self_match(b, 'mark_fulfilled')
+    if not re.fullmatch(T('{ let mut session_privs = new_hash_set(); core::mem::swap(&mut session_privs,'), one(b[:s0])):
+        fail("mark_fulfilled: the session privs are no longer swapped out of `self`: %r" % one(b[:s0]))
+    m = re.fullmatch(T('); let payment_hash = self.payment_hash(); let total_msat = self.total_msat(); let fee_paid_msat = self.get_pending_fee_msat(); '
+                       '*self = PendingOutboundPayment::<<to:\\w+>> { session_privs, payment_hash, timer_ticks_without_htlcs: <<t:\\d+>>, total_msat, fee_paid_msat }; }'), one(b[s1:]))
+    if not m or m.group('to') not in VARIANTS: fail("mark_fulfilled: the new value of `*self` changed shape: %r" % one(b[s1:]))
+    to = m.group('to')
+    tab = variant_arms(arms, 'mark_fulfilled')
+    def v_mf(v, alt, ex):
+        if ex == 'session_privs' and binds_privs(alt): return 'some .' + lv(to)
+        if ex == '{ debug_assert!(false); return; }': return 'none'
+        fail("mark_fulfilled/%s: %r" % (v, ex))
+    table(L, 'mark_fulfilled: the variant afterwards; none = `{ debug_assert!(false); return; }`', 'markFulfilledTo', 'Option Variant', tab, v_mf)
+    L += ['/-- mark_fulfilled: the session privs of the old value are swapped into the new one (`core::mem::swap`) -/',
+          'def markFulfilledKeepsParts : Bool := true',
+          '/-- mark_fulfilled: `timer_ticks_without_htlcs: %s` -/' % m.group('t'),
+          'def markFulfilledTicks : Nat := %s' % m.group('t'), '']
+
+    # ---- mark_abandoned --------------------------------------------------------------------------------
+    _, _, body = find_fn(src, 'mark_abandoned', after=POP)
+    b = strip_comments(body)
+    arms1, a0, a1 = self_match(b, 'mark_abandoned', 0)
+    arms2, b0, b1 = self_match(b, 'mark_abandoned', 1)
+    if not re.fullmatch(T('{ let session_privs ='), one(b[:a0])) or \
+       not re.fullmatch(T('; let total_msat = self.total_msat(); let pending_fee_msat = self.get_pending_fee_msat();'), one(b[a1:b0])) or one(b[b1:]).strip('} '):
+        fail("mark_abandoned changed shape")
+    tab1 = variant_arms(arms1, 'mark_abandoned (session privs)')
+    def v_ma1(v, alt, ex):
+        if ex == '{ let mut our_session_privs = new_hash_set(); core::mem::swap(&mut our_session_privs, session_privs); our_session_privs }' and binds_privs(alt): return 'true'
+        if ex == 'new_hash_set()': return 'false'
+        fail("mark_abandoned/%s takes its session privs from %r" % (v, ex))
+    tab2 = variant_arms(arms2, 'mark_abandoned (rewrite)')
+    def v_ma2(v, alt, ex):
+        m = re.fullmatch(T('{ *self = Self::<<to:\\w+>> { session_privs, payment_hash: *payment_hash, reason: Some(reason), total_msat, pending_fee_msat, }; }'), ex)
+        if m and m.group('to') in VARIANTS and re.search(r'\bpayment_hash\b', alt): return '.' + lv(m.group('to'))
+        if ex == '{}': return '.' + lv(v)
+        fail("mark_abandoned/%s: %r" % (v, ex))
+    table(L, 'mark_abandoned: the variant afterwards (`_ => {}` leaves the value untouched); the new value carries `reason: Some(reason)`', 'markAbandonedTo', 'Variant', tab2, v_ma2)
+    table(L, 'mark_abandoned: is `self` rewritten at all (false = the `_ => {}` arm)', 'markAbandonedRewrites', 'Bool', tab2, lambda v, alt, ex: 'false' if ex == '{}' else 'true')
+    table(L, 'mark_abandoned: the session privs handed to the new value are the old ones (swapped out, true) or `new_hash_set()` (false)', 'markAbandonedKeepsParts', 'Bool', tab1, v_ma1)
+
+    # ---- remove / insert ---------------------------------------------------------------------------------
+    for fn, name, call in (('remove', 'removeHolds', 'session_privs.remove(session_priv)'), ('insert', 'insertAccepts', 'session_privs.insert(session_priv)')):
+        _, _, body = find_fn(src, fn, after=POP)
+        b = strip_comments(body)
+        arms, s0, s1 = self_match(b, fn)
+        if not re.fullmatch(T('{ let %s_res =' % fn), one(b[:s0])) or not re.fullmatch(T('; if %s_res {<<:.*>>} %s_res }' % (fn, fn)), one(b[s1:])):
+            fail("PendingOutboundPayment::%s changed shape" % fn)
+        tab = variant_arms(arms, fn)
+        def v_ri(v, alt, ex):
+            if ex == '{ %s }' % call and binds_privs(alt): return 'some true'
+            if ex == '{ debug_assert!(false); false }': return 'none'
+            if ex == 'false': return 'some false'
+            fail("PendingOutboundPayment::%s/%s: %r" % (fn, v, ex))
+        table(L, 'PendingOutboundPayment::%s: some true = `%s` is the result; some false = `false`; none = `{ debug_assert!(false); false }`' % (fn, call), name, 'Option Bool', tab, v_ri)
+
+    # ---- Retry::is_retryable_now, is_retryable_now, is_auto_retryable_now --------------------------------------
+    _, _, body = find_fn(src, 'is_retryable_now', after='impl Retry {')
+    m = re.match(T('{ match (self, attempts) { (Retry::Attempts(max_retry_count), PaymentAttempts { count, .. }) => { <<c:[^{}]*>> },'), one(strip_comments(body)))
+    if not m: fail("Retry::is_retryable_now: the Attempts arm changed shape")
+    bool_fn(L, 'Retry::is_retryable_now, `Retry::Attempts(max_retry_count)` against `PaymentAttempts { count, .. }`: `%s`' % m.group('c').strip(),
+            'attemptsRetryable (max count : Nat)', m.group('c'), env={'max_retry_count': 'max', 'count': 'count'})
+    _, _, body = find_fn(src, 'is_retryable_now', after=POP)
+    m = re.fullmatch(T('{ match self { PendingOutboundPayment::<<v1:\\w+>> { retry_strategy: None, .. } => { <<manual:true|false>> }, '
+                       'PendingOutboundPayment::<<v2:\\w+>> { retry_strategy: Some(strategy), attempts, .. } => { strategy.is_retryable_now(&attempts) }, _ => <<other:true|false>>, } }'),
+                     one(strip_comments(body)))
+    if not m or m.group('v1') != m.group('v2') or m.group('v1') not in VARIANTS: fail("PendingOutboundPayment::is_retryable_now changed shape")
+    L += ['/-- PendingOutboundPayment::is_retryable_now: `%s { retry_strategy: None, .. } => %s`, `%s { retry_strategy: Some(strategy), attempts, .. } =>' % (m.group('v1'), m.group('manual'), m.group('v2')),
+          '    strategy.is_retryable_now(&attempts)` (= `strategyNow`), `_ => %s` -/' % m.group('other'),
+          'def isRetryableNow (v : Variant) (strategySome strategyNow : Bool) : Bool :=',
+          '  if v == .%s then (if strategySome then strategyNow else %s) else %s' % (lv(m.group('v1')), m.group('manual'), m.group('other')), '']
+    _, _, body = find_fn(src, 'is_auto_retryable_now', after=POP)
+    m = re.fullmatch(T('{ match self { PendingOutboundPayment::<<v:\\w+>> { retry_strategy: Some(strategy), attempts, payment_params: Some(_), .. } => { strategy.is_retryable_now(&attempts) }, _ => false, } }'),
+                     one(strip_comments(body)))
+    if not m or m.group('v') not in VARIANTS: fail("PendingOutboundPayment::is_auto_retryable_now changed shape")
+    L += ['/-- PendingOutboundPayment::is_auto_retryable_now: only `%s { retry_strategy: Some(strategy), attempts, payment_params: Some(_), .. }` can' % m.group('v'),
+          '    answer true (`strategy.is_retryable_now(&attempts)`), `_ => false` -/',
+          'def isAutoRetryableNow (v : Variant) (strategySome paramsSome strategyNow : Bool) : Bool :=',
+          '  if v == .%s && strategySome && paramsSome then strategyNow else false' % lv(m.group('v')),
+          '/-- the variants for which is_auto_retryable_now can answer true -/',
+          'def autoRetryableV (v : Variant) : Bool := v == .%s' % lv(m.group('v')), '']
+
+    # ---- claim_htlc ---------------------------------------------------------------------------------------------
+    pay = {'get': lambda recv, args: recv, 'get_mut': lambda recv, args: recv, 'is_fulfilled': lambda recv, args: 'isFulfilled',
+           'remaining_parts': lambda recv, args: 'remaining', 'remove': lambda recv, args: 'removed',
+           'is_auto_retryable_now': lambda recv, args: 'auto', 'is_pre_htlc_lock_in': lambda recv, args: 'preHtlc'}
+    penv = {'payment': 'payment', 'pmt': 'pmt', 'session_priv_bytes': '_', 'path': '_', 'None': '_'}
+    _, _, body = find_fn(src, 'claim_htlc')
+    b = one(strip_comments(body))
+    m = re.search(T('if let hash_map::Entry::Occupied(mut payment) = outbounds.entry(payment_id) { if <<c:[^{}]*>> { <<b1:.*?>> payment.get_mut().mark_fulfilled(); } '
+                    'if <<oc:\\w+>> { if <<rm:payment\\.get_mut\\(\\)\\.remove\\(&session_priv_bytes, Some\\(&path\\)\\)>> { <<b2:.*?>> } } } else { log_trace!(<<:[^;]*>>); } }') + '$', b)
+    if not m: fail("claim_htlc changed shape")
+    ev = r'pending_events\.push_back\(\(events::Event::(\w+) \{'
+    if re.findall(ev, m.group('b1')) != ['PaymentSent'] or re.search(r'\bif\b|\breturn\b|\bremove\(', m.group('b1')): fail("claim_htlc: the PaymentSent block changed: %r" % m.group('b1')[:200])
+    if re.findall(ev, m.group('b2')) != ['PaymentPathSuccessful'] or re.search(r'\bif\b|\breturn\b', m.group('b2')): fail("claim_htlc: the PaymentPathSuccessful block changed: %r" % m.group('b2')[:200])
+    if m.group('oc') != 'from_onchain': fail("claim_htlc: the removal is guarded by %s" % m.group('oc'))
+    bool_fn(L, 'claim_htlc (entry Occupied; Vacant: nothing happens): `PaymentSent` is pushed and `mark_fulfilled()` called iff `%s` ...' % m.group('c').strip(),
+            'claimSends (isFulfilled : Bool)', m.group('c'), env=penv, methods=pay)
+    bool_fn(L, '... then `if %s`: `remove(&session_priv_bytes, Some(&path))` is called ...' % m.group('oc'), 'claimRemoves (fromOnchain : Bool)', m.group('oc'), env={'from_onchain': 'fromOnchain'})
+    bool_fn(L, '... and `PaymentPathSuccessful` pushed iff it returned true', 'claimPathOk (removed : Bool)', m.group('rm'), env=penv, methods=pay)
+
+    # ---- finalize_claims ------------------------------------------------------------------------------------------
+    _, _, body = find_fn(src, 'finalize_claims')
+    b = one(strip_comments(body))
+    m = re.search(T('for (source, hold_times) in sources { if let HTLCSource::OutboundRoute { session_priv, payment_id, path, .. } = source { <<:[^{}]*>> '
+                    'if let hash_map::Entry::Occupied(mut payment) = outbounds.entry(payment_id) { assert!(<<a:[^;]*>>); '
+                    'if <<rm:payment\\.get_mut\\(\\)\\.remove\\(&session_priv_bytes, None\\)>> { <<b2:.*?>> } } } } }') + '$', b)
+    if not m: fail("finalize_claims changed shape")
+    if re.findall(ev, m.group('b2')) != ['PaymentPathSuccessful'] or re.search(r'\bif\b|\breturn\b', m.group('b2')): fail("finalize_claims: the PaymentPathSuccessful block changed")
+    bool_fn(L, 'finalize_claims (entry Occupied; Vacant: nothing happens): `assert!(%s)` ...' % m.group('a').strip(), 'finalizeAsserts (isFulfilled : Bool)', m.group('a'), env=penv, methods=pay)
+    bool_fn(L, '... then `remove(&session_priv_bytes, None)`, `PaymentPathSuccessful` pushed iff it returned true', 'finalizePathOk (removed : Bool)', m.group('rm'), env=penv, methods=pay)
+
+    # ---- fail_htlc ----------------------------------------------------------------------------------------------------
+    _, _, body = find_fn(src, 'fail_htlc')
+    b = one(strip_comments(body))
+    m = re.search(T('let mut full_failure_ev = None; let attempts_remaining = if let hash_map::Entry::Occupied(mut payment) = outbounds.entry(*payment_id) { '
+                    'if <<e1:!payment\\.get_mut\\(\\)\\.remove\\(&session_priv_bytes, Some\\(&path\\)\\)>> { log_trace!(<<:[^;]*>>); return; } '
+                    'if <<e2:payment\\.get\\(\\)\\.is_fulfilled\\(\\)>> { log_trace!(<<:[^;]*>>); return; } '
+                    'let mut is_retryable_now = payment.get().is_auto_retryable_now(); <<mid:.*?>> '
+                    'if <<ab:[^{}]*>> { let reason = if <<rc:\\w+>> { PaymentFailureReason::<<ra:\\w+>> } else { PaymentFailureReason::<<rb:\\w+>> }; '
+                    'payment.get_mut().mark_abandoned(reason); is_retryable_now = false; } '
+                    'if <<rp:payment\\.get\\(\\)\\.remaining_parts\\(\\) == 0>> { if let PendingOutboundPayment::<<av:\\w+>> { payment_hash, reason, .. } = payment.get() { '
+                    'if <<pf:[^{}]*>> { full_failure_ev = Some(events::Event::PaymentFailed { payment_id: *payment_id, payment_hash: Some(*payment_hash), reason: *reason, }); } '
+                    'payment.remove(); } } is_retryable_now } else { log_trace!(<<:[^;]*>>); return; };'), b)
+    if not m: fail("fail_htlc: the map-entry block changed shape")
+    if re.search(r'\breturn\b|mark_abandoned|mark_fulfilled|\.remove\(|is_retryable_now|full_failure_ev|push_back', m.group('mid')):
+        fail("fail_htlc: new decisions between the early returns and the abandon test: %r" % m.group('mid')[:200])
+    if m.group('rc') != 'payment_failed_permanently' or m.group('av') != 'Abandoned': fail("fail_htlc: reason / dropped variant changed")
+    bool_fn(L, 'fail_htlc (entry Occupied; Vacant: return): first `if %s { return }` ...' % m.group('e1'), 'failReturnsNotRemoved (removed : Bool)', m.group('e1'), env=penv, methods=pay)
+    bool_fn(L, '... then `if %s { return }` ...' % m.group('e2'), 'failReturnsFulfilled (isFulfilled : Bool)', m.group('e2'), env=penv, methods=pay)
+    fenv = {'payment_is_probe': 'isProbe', 'is_retryable_now': 'autoRetryable', 'payment_failed_permanently': 'perm'}
+    bool_fn(L, '... then (`is_retryable_now = payment.get().is_auto_retryable_now()`) `mark_abandoned(reason)` iff `%s` ...' % m.group('ab').strip(),
+            'failAbandons (isProbe autoRetryable perm : Bool)', m.group('ab'), env=fenv)
+    L += ['/-- ... with `reason = if %s { %s } else { %s }` ... -/' % (m.group('rc'), m.group('ra'), m.group('rb')),
+          'def failReason (perm : Bool) : FailReason :=', '  if perm then %s else %s' % (reason_of(m.group('ra'), 'fail_htlc'), reason_of(m.group('rb'), 'fail_htlc')), '']
+    em = Emitter(env=penv, methods=pay)
+    L += ['/-- ... then `if %s { if let %s { reason, .. } = payment.get() { ..; payment.remove() } }`: the entry is dropped ... -/' % (m.group('rp'), m.group('av')),
+          'def failDrops (remaining : Nat) (isAbandoned : Bool) : Bool :=', '  %s && isAbandoned' % em.e(parse_expr(m.group('rp'))), '']
+    bool_fn(L, '... and `PaymentFailed` (with the STORED reason) is the full-failure event iff `%s`' % m.group('pf').strip(), 'failPushesFailed (isProbe : Bool)', m.group('pf'), env=fenv)
+    m = re.search(T('let path_failure = { if <<p1:\\w+>> { if <<p2:\\w+>> { events::Event::<<ea:\\w+>> {<<:[^{}]*>>} } else { events::Event::<<eb:\\w+>> {<<:[^{}]*>>} } } else { '
+                    'if attempts_remaining && !already_awaiting_retry { debug_assert!(full_failure_ev.is_none()); } events::Event::<<ec:\\w+>> {'), b)
+    PEV = {'ProbeSuccessful': '.probeSuccessful', 'ProbeFailed': '.probeFailed', 'PaymentPathFailed': '.paymentPathFailed'}
+    if not m or m.group('p1') != 'payment_is_probe' or m.group('p2') != 'payment_failed_permanently' or any(m.group(g) not in PEV for g in ('ea', 'eb', 'ec')):
+        fail("fail_htlc: the path-failure event changed shape")
+    L += ['/-- the per-path event of fail_htlc -/', 'inductive PathEvent', '  | probeSuccessful | probeFailed | paymentPathFailed', '  deriving DecidableEq, Repr, Inhabited', '',
+          '/-- fail_htlc: `path_failure = if payment_is_probe { if payment_failed_permanently { %s } else { %s } } else { %s }` -/' % (m.group('ea'), m.group('eb'), m.group('ec')),
+          'def failPathEvent (isProbe perm : Bool) : PathEvent :=',
+          '  if isProbe then (if perm then %s else %s) else %s' % (PEV[m.group('ea')], PEV[m.group('eb')], PEV[m.group('ec')]), '']
+    if not re.search(T('if let Some(ev) = full_failure_ev { pending_events.push_back((path_failure, None)); pending_events.push_back((ev, completion_action)); } '
+                       'else { pending_events.push_back((path_failure, completion_action)); } }') + '$', b):
+        fail("fail_htlc: the order of the pushed events changed")
+    L += ['/-- fail_htlc: `path_failure` is always pushed, and BEFORE the full-failure event -/', 'def failPathEventFirst : Bool := true', '']
+
+    # ---- abandon_payment -----------------------------------------------------------------------------------------------
+    _, _, body = find_fn(src, 'abandon_payment')
+    b = strip_comments(body)
+    m = re.fullmatch(T('{ let mut outbounds = self.pending_outbound_payments.lock().unwrap(); if let hash_map::Entry::Occupied(mut payment) = outbounds.entry(payment_id) { '
+                       'payment.get_mut().mark_abandoned(reason); match payment.get() <<arms:\\{.*\\}>> } }'), one(b))
+    if not m: fail("abandon_payment changed shape")
+    tab = variant_arms(match_arms(m.group('arms')), 'abandon_payment')
+    pushed = 'pending_events.lock().unwrap().push_back((events::Event::PaymentFailed { payment_id, payment_hash: %s, reason: %s, }, None)); payment.remove();'
+    tests = []
+    def v_ab(v, alt, ex):
+        m1 = re.fullmatch(T('{ if <<c:[^{}]*>> { ' + pushed % ('Some(*payment_hash)', '*reason') + ' } }'), ex)
+        if m1 and re.search(r'\breason\b', alt):
+            tests.append(m1.group('c').strip()); return '.stored'
+        if re.fullmatch(T('{ ' + pushed % ('None', 'Some(reason)') + ' }'), ex) and not re.search(r'\breason\b', alt): return '.argument'
+        if ex == '{}': return '.nothing'
+        fail("abandon_payment/%s: %r" % (v, ex))
+    L += ['/-- what abandon_payment does after `mark_abandoned(reason)`, by the variant the entry has THEN: `stored` = `PaymentFailed` with the',
+          '    reason stored in the entry + `payment.remove()`, both only if `abandonStoredTest`; `argument` = `PaymentFailed` with the reason',
+          '    passed to abandon_payment + `payment.remove()`; `nothing` = `{}` -/',
+          'inductive AbandonArm', '  | stored | argument | nothing', '  deriving DecidableEq, Repr, Inhabited', '']
+    table(L, 'abandon_payment (entry Occupied; Vacant: nothing happens): `mark_abandoned(reason); match payment.get() { .. }`', 'abandonArm', 'AbandonArm', tab, v_ab)
+    if len(set(tests)) != 1: fail("abandon_payment: the stored-reason arms test %r" % tests)
+    bool_fn(L, 'abandon_payment, `stored` arm: `if %s`' % tests[0], 'abandonStoredTest (remaining : Nat)', tests[0], env=penv, methods=pay)
+
+    # ---- remove_stale_payments -------------------------------------------------------------------------------------------
+    _, _, body = find_fn(src, 'remove_stale_payments')
+    b = strip_comments(body)
+    m = re.search(r'pending_outbound_payments\.retain\(\|payment_id, payment\| match payment\s*(\{)', b)
+    if not m or one(b[match_brace(b, m.start(1)):]) != '); }': fail("remove_stale_payments: the retain closure changed shape")
+    tab = variant_arms(match_arms(b[m.start(1):match_brace(b, m.start(1))]), 'remove_stale_payments')
+    KEEP = 'true'
+    FUL = T('{ let mut no_remaining_entries = session_privs.is_empty(); if no_remaining_entries { for (ev, _) in pending_events.iter() { match ev { '
+            'events::Event::PaymentSent { payment_id: Some(ev_payment_id), .. } | events::Event::PaymentPathSuccessful { payment_id: ev_payment_id, .. } | '
+            'events::Event::PaymentPathFailed { payment_id: Some(ev_payment_id), .. } => { if payment_id == ev_payment_id { no_remaining_entries = false; break; } }, _ => {}, } } } '
+            'if no_remaining_entries { *timer_ticks_without_htlcs += <<inc:\\d+>>; <<keep:[^;{}]*>> } else { *timer_ticks_without_htlcs = <<z:\\d+>>; <<k2:true|false>> } }')
+    EXP = T('{ let is_stale = match expiration { StaleExpiration::AbsoluteTimeout(absolute_expiry) => { *absolute_expiry <= duration_since_epoch }, '
+            'StaleExpiration::TimerTicks(timer_ticks_remaining) => { if <<c:[^{}]*>> { *timer_ticks_remaining -= <<d:\\d+>>; <<s1:true|false>> } else { <<s2:true|false>> } }, }; '
+            'if is_stale { let event = events::Event::PaymentFailed { payment_id: *payment_id, payment_hash: None, reason: Some(PaymentFailureReason::<<r:\\w+>>), }; '
+            'pending_events.push_back((event, None)); false } else { true } }')
+    found = {}
+    def v_st(v, alt, ex):
+        m1 = re.fullmatch(FUL, ex)
+        if m1 and re.search(r'\bsession_privs\b', alt) and re.search(r'\btimer_ticks_without_htlcs\b', alt):
+            found['ful'] = m1; return '.fulfilled'
+        m1 = re.fullmatch(EXP, ex)
+        if m1 and re.search(r'\bexpiration\b', alt):
+            if 'exp' in found and found['exp'].group(0) != m1.group(0): fail("remove_stale_payments: two different expiration arms")
+            found['exp'] = m1; return '.expiration'
+        if v == 'StaticInvoiceReceived' and 'is_static_invoice_stale' in ex: return '.staticInvoice'
+        if ex == KEEP: return '.keep'
+        fail("remove_stale_payments/%s: %r" % (v, ex[:200]))
+    L += ['/-- the arms of the `retain` closure of remove_stale_payments -/', 'inductive StaleArm', '  | fulfilled | expiration | staticInvoice | keep', '  deriving DecidableEq, Repr, Inhabited', '']
+    table(L, 'remove_stale_payments: which arm of `match payment` a variant takes (`keep` = `_ => true`; `staticInvoice` = absolute time, not modelled)', 'staleArm', 'StaleArm', tab, v_st)
+    if 'ful' not in found or 'exp' not in found: fail("remove_stale_payments: Fulfilled / expiration arm not found")
+    f = found['ful']
+    emt = Emitter(env={'timer_ticks_without_htlcs': '(ticks + %s)' % f.group('inc'), 'IDEMPOTENCY_TIMEOUT_TICKS': 'timeout'})
+    L += ['/-- remove_stale_payments, Fulfilled arm.  `noRemaining` = `session_privs.is_empty()` and no `PaymentSent` / `PaymentPathSuccessful` /',
+          '    `PaymentPathFailed` for this payment id is in `pending_events`.  Then `*timer_ticks_without_htlcs += %s; %s`,' % (f.group('inc'), f.group('keep').strip()),
+          '    else `*timer_ticks_without_htlcs = %s; %s`.  Result: (new tick count, entry retained) -/' % (f.group('z'), f.group('k2')),
+          'def staleFulfilled (noRemaining : Bool) (ticks : Nat) (timeout : Nat) : Nat × Bool :=',
+          '  if noRemaining then (ticks + %s, %s) else (%s, %s)' % (f.group('inc'), emt.e(parse_expr(f.group('keep'))), f.group('z'), f.group('k2')), '']
+    x = found['exp']
+    emx = Emitter(env={'timer_ticks_remaining': 'ticks'})
+    L += ['/-- remove_stale_payments, `StaleExpiration::TimerTicks(timer_ticks_remaining)`: `if %s { *timer_ticks_remaining -= %s; %s } else { %s }`.' % (x.group('c').strip(), x.group('d'), x.group('s1'), x.group('s2')),
+          '    Result: (new tick count, is_stale); a stale entry is dropped and `PaymentFailed { reason: Some(%s) }` pushed -/' % x.group('r'),
+          'def staleTimerTicks (ticks : Nat) : Nat × Bool :=',
+          '  if %s then (ticks - %s, %s) else (ticks, %s)' % (emx.e(parse_expr(x.group('c'))), x.group('d'), x.group('s1'), x.group('s2')),
+          'def staleReason : FailReason := %s' % reason_of(x.group('r'), 'remove_stale_payments'), '']
+
+    # ---- check_retry_payments: the final retain ------------------------------------------------------------------------------
+    _, _, body = find_fn(src, 'check_retry_payments')
+    b = one(strip_comments(body))
+    m = re.search(T('outbounds.retain(|pmt_id, pmt| { let mut retain = true; if <<c:[^{}]*>> { pmt.mark_abandoned(PaymentFailureReason::<<r:\\w+>>); '
+                    'if let PendingOutboundPayment::<<av:\\w+>> { payment_hash, reason, .. } = pmt { pending_events.lock().unwrap().push_back(( events::Event::PaymentFailed { '
+                    'payment_id: *pmt_id, payment_hash: Some(*payment_hash), reason: *reason, }, None, )); retain = false; should_persist = true; } } retain }); should_persist }') + '$', b)
+    if not m or m.group('av') != 'Abandoned': fail("check_retry_payments: the final retain changed shape")
+    bool_fn(L, 'check_retry_payments, final `retain`: `mark_abandoned(%s)` iff `%s`; afterwards the entry is dropped and `PaymentFailed` (stored reason) pushed only `if let Abandoned { .. } = pmt`' % (m.group('r'), m.group('c').strip()),
+            'sweepAbandons (auto : Bool) (remaining : Nat) (preHtlc : Bool)', m.group('c'), env=penv, methods=pay)
+    L += ['def sweepReason : FailReason := %s' % reason_of(m.group('r'), 'check_retry_payments'), '']
+
+    # ---- insert_from_monitor_on_startup ----------------------------------------------------------------------------------------
+    _, _, body = find_fn(src, 'insert_from_monitor_on_startup')
+    b = strip_comments(body)
+    ob = one(b)
+    m = re.match(T('{ let path_amt = path.final_value_msat(); let path_fee = path.fee_msat(); macro_rules! new_retryable { () => { PendingOutboundPayment::<<v:\\w+>> { <<flds:[^{}]*>> } } }'), ob)
+    if not m or m.group('v') not in VARIANTS: fail("insert_from_monitor_on_startup: new_retryable! changed shape")
+    flds = dict((x.split(':', 1)[0].strip(), x.split(':', 1)[-1].strip()) for x in split_top(m.group('flds')) if x.strip())
+    want = {'session_privs': 'hash_set_from_iter([session_priv_bytes])', 'pending_amt_msat': 'path_amt', 'total_msat': 'path_amt', 'retry_strategy': 'None', 'payment_params': 'None'}
+    for k, v in want.items():
+        if flds.get(k) != v: fail("insert_from_monitor_on_startup: new_retryable! has %s: %r" % (k, flds.get(k)))
+    newv = m.group('v')
+    m = re.search(r'match self\.pending_outbound_payments\.lock\(\)\.unwrap\(\)\.entry\(payment_id\)\s*(\{)', b)
+    if not m or one(b[match_brace(b, m.start(1)):]) != '}': fail("insert_from_monitor_on_startup: the entry match changed shape")
+    arms = match_arms(b[m.start(1):match_brace(b, m.start(1))])
+    if [one(p) for p, _ in arms] != ['hash_map::Entry::Occupied(mut entry)', 'hash_map::Entry::Vacant(entry)']: fail("insert_from_monitor_on_startup: entry arms changed")
+    if not re.fullmatch(T('{ entry.insert(new_retryable!()); log_info!(<<:[^;]*>>); }'), one(arms[1][1])): fail("insert_from_monitor_on_startup: the Vacant arm changed")
+    occ = arms[0][1]
+    m = re.search(r'let newly_added = match entry\.get\(\)\s*(\{)', occ)
+    if not m or one(occ[:m.start()]) != '{' or not re.fullmatch(T('; log_info!(<<:[^;]*>>); }'), one(occ[match_brace(occ, m.start(1)):])): fail("insert_from_monitor_on_startup: the Occupied arm changed")
+    tab = variant_arms(match_arms(occ[m.start(1):match_brace(occ, m.start(1))]), 'insert_from_monitor_on_startup')
+    def v_su(v, alt, ex):
+        if ex == '{ *entry.get_mut() = new_retryable!(); true }': return '.replace'
+        if ex == '{ entry.get_mut().insert(session_priv_bytes, &path) }': return '.insert'
+        fail("insert_from_monitor_on_startup/%s: %r" % (v, ex))
+    L += ['/-- insert_from_monitor_on_startup, Occupied entry: `replace` = `*entry.get_mut() = new_retryable!()`; `insert` =',
+          '    `entry.get_mut().insert(session_priv_bytes, &path)` -/', 'inductive StartupArm', '  | replace | insert', '  deriving DecidableEq, Repr, Inhabited', '']
+    table(L, 'insert_from_monitor_on_startup: what happens to an Occupied entry, by variant.  A Vacant entry gets `new_retryable!()`', 'startupArm', 'StartupArm', tab, v_su)
+    L += ['/-- insert_from_monitor_on_startup: `new_retryable!()` is a `%s` with `session_privs: hash_set_from_iter([session_priv_bytes])`,' % newv,
+          '    `pending_amt_msat: path_amt`, `total_msat: path_amt` (`path_amt = path.final_value_msat()`), no retry strategy / payment params -/',
+          'def startupNewVariant : Variant := .%s' % lv(newv),
+          'def startupNewPending (pathAmt : Nat) : Nat := pathAmt',
+          'def startupNewTotal (pathAmt : Nat) : Nat := pathAmt', '']
+
 # ---------------------------------------------------------------- main
 
 def main(out_path):
@@ -481,6 +861,7 @@ def main(out_path):
     L.append('/-- remove_outbound_if_all_failed (send_probe): the failure kinds for which the new entry is removed again -/')
     L.append('def probeDropsEntry : SendKind → Bool')
     L += lines + ['  | .sentAll => false', '']
+    lifecycle(src, L)
     L.append('end Ldk.OutboundSendGen')
     text = '\n'.join(L) + '\n'
     old = open(out_path).read() if os.path.exists(out_path) else None
